@@ -1583,6 +1583,7 @@ func (t *Tokenizer) readPunctuation() (models.Token, error) {
 		return models.Token{Type: models.TokenTypeQuestion, Value: "?"}, nil
 	case '$':
 		// Handle PostgreSQL positional parameters ($1, $2, etc.)
+		dollarStart := t.pos.Index
 		t.pos.AdvanceRune(r, size)
 		if t.pos.Index < len(t.input) {
 			nextR, _ := utf8.DecodeRune(t.input[t.pos.Index:])
@@ -1655,9 +1656,10 @@ func (t *Tokenizer) readPunctuation() (models.Token, error) {
 					cr, cs := utf8.DecodeRune(t.input[t.pos.Index:])
 					t.pos.AdvanceRune(cr, cs)
 				}
-				// Unterminated dollar-quoted string
+				// Unterminated dollar-quoted string: located, like every other
+				// unterminated literal, at its opening delimiter
 				return models.Token{}, errors.UnterminatedStringError(
-					models.Location{Line: t.pos.Line, Column: t.pos.Column},
+					t.toSQLPosition(Position{Index: dollarStart}),
 					string(t.input),
 				)
 			}
